@@ -428,7 +428,7 @@ struct StreamSim : Sim {
                 case 10: n = rem; break;
                 default: n = o.c % (rem + 1); break;
                 }
-                if (c.fragmode && (o.b % 12) != 0)
+                if (c.fragmode && (o.b % 12) != 0 && (o.b % 12) != 10)
                         n = (c.fragmode == 2 && (c.nfrag++ & 1)) ? c.fragB : c.fragA;
                 return std::min(n, rem);
         }
@@ -595,7 +595,7 @@ struct StreamSim : Sim {
                         case 6: n = o.c % 64; break;
                         default: n = o.c % (rem + 1); break;
                         }
-                        if (c.fragmode && (o.b % 9) != 0)
+                        if (c.fragmode && (o.b % 9) != 0 && (o.b % 9) != 5)
                                 n = (c.fragmode == 2 && (c.nfrag++ & 1)) ? c.fragB : c.fragA;
                         n = std::min<uint64_t>(n, rem);
                         buf = e.mem.alloc(n, 1, place_of(o.d), nullptr, "rolling run buffer", R_INPUT, (size_t) ((o.d >> 2) % 64));
@@ -829,8 +829,11 @@ struct StreamSim : Sim {
                 }
                 default: n = o.c % (rem + 1); break;
                 }
-                if (c.fragmode && (o.b % 10) != 0 && (o.b % 10) != 8)
+                if (c.fragmode && (o.b % 10) != 0 && (o.b % 10) != 7 && (o.b % 10) != 8) { // never the "rest" class: finalize relies on it
                         n = (c.fragmode == 2 && (c.nfrag++ & 1)) ? c.fragB : c.fragA;
+                        if (c.nt)
+                                n = 64 * (1 + n % 8);
+                }
                 n = std::min(n, rem);
                 if (c.nt && n != rem)
                         n = (n / 64) * 64; // non-final pieces must be multiples of 64
